@@ -66,7 +66,46 @@ CHECKS['C04'] = {
     'explanation': 'to_bytes_internal, to_bytes, to_bytes_with_limit, to_bytes_unlimited, HeaderRaw::serialize_into, Header::to_raw under contract enc_post (units/enc.py).',
 }
 
-HOOK_COMMITS = []
+T_KANI = 'Kani 0.68 / CBMC 6.11 (bit-precise); alloc::fmt::format stubbed in harnesses (error message text is not part of any property)'
+def _k(name, claim, kind='complete', bound='', timeout=600):
+    return {'name': name, 'kind': kind, 'bound': bound, 'claim': claim, 'timeout': timeout}
+
+CHECKS['C13'] = {
+    'level': 'proof',
+    'units': [],
+    'kani': [
+        _k('block_codec_roundtrip', 'all num:u16 x more x szx<=7: encoding == minimal uint of NUM<<4|M<<3|SZX, decode(encode(v)) == v'),
+        _k('block_decode_all_short_strings', 'all byte strings of length <= 5: decode == triple of the big-endian value (<= 3 bytes always; 4 bytes iff NUM fits u16; 5 bytes error)'),
+        _k('block_size_is_power', 'size() == 2^(SZX+4) for szx 0..7'),
+        _k('block_new_contract', 'all (num, size) in usize x usize: largest power of two <= size but >= 16; Err iff size == 0, size >= 4096 or num > 65535'),
+    ],
+    'technique': 'Kani/CBMC contract harnesses on the real BlockValue functions over their full input domains (loops bounded by operand width, unwinding assertions on)',
+    'level_text': 'Complete: each harness quantifies symbolically over the whole domain (48-bit triple space; all strings up to 5 bytes; usize x usize), loops are bounded by the operand width (8 bytes / 64 bits) with unwinding assertions, so a successful run is a proof, and a failing one yields a concrete counterexample via concrete playback.',
+    'level_note': 'Trusted: Kani/CBMC; error-message formatting stubbed. Size exponents above 7 (not producible by decode or new) are outside the claim.',
+    'trusted': [T_KANI],
+    'explanation': 'BlockValue::new/size/From/TryFrom',
+}
+CHECKS['C06'] = {
+    'level': 'proof',
+    'units': ['acc'],
+    'kani': [
+        _k('uint_encode_u8', 'all u8: shortest big-endian form, decode(encode) == v'), _k('uint_decode_u8', 'all strings <= 3 bytes: value or error by length'),
+        _k('uint_encode_u16', 'all u16'), _k('uint_decode_u16', 'all strings <= 4 bytes'),
+        _k('uint_encode_u32', 'all u32'), _k('uint_decode_u32', 'all strings <= 6 bytes'),
+        _k('uint_encode_u64', 'all u64'), _k('uint_decode_u64', 'all strings <= 10 bytes'),
+    ],
+    'technique': 'Kani/CBMC complete harnesses on the real option_value conversions (all values of all four widths) + Verus whole-view contracts on the Packet accessors',
+    'level_text': 'Complete for unsigned values: for every value of every width the encoding equals an independently written minimal big-endian reference and decodes back; every byte string up to width+2 decodes to its big-endian value or is rejected exactly when longer than the width (the rejection branch does not read the contents). The raw and typed Packet accessors are verified in Verus for all packets: they store exactly into(value) / return exactly try_from(stored value), element order preserved.',
+    'level_note': 'Trusted: Kani/CBMC, Verus/Z3/vstd, R1. Not covered: text options (String::from_utf8 / into_bytes are std, not re-verified) and the list forms get_options_as / set_options_as (iterator map/collect).',
+    'trusted': [T_KANI, T_VERUS, T_R1],
+    'not_covered': ['OptionValueString (std UTF-8 validation trusted, thin wrappers)', 'get_options_as / set_options_as (iter().map().collect())'],
+    'explanation': 'option_from_uint/option_to_uint through the four public wrapper types; Packet::{add_option,get_option,get_first_option,set_option,clear_option,add_option_as,get_first_option_as}',
+}
+CHECKS['C05']['kani'] = [_k('is_error_iff_byte_ge_0x80', 'all 256 code bytes through the real From<u8> and the derived PartialOrd: is_error() == (byte >= 0x80)')]
+CHECKS['C05']['trusted'].append(T_KANI)
+CHECKS['C05']['not_covered'] = ['dotted c.dd text form (Display / set_code / get_code): fmt machinery too expensive for CBMC (435 s without verdict, DESIGN.md Appendix B) and str parsing is outside Verus']
+
+HOOK_COMMITS = ['7321ffc']
 
 NOT_APPLICABLE = [
     {'property_id': 'C16', 'reason': 'round trip runs through the two link-format scanners, which slice by pointer difference and use trim/find/split_at: Verus has no byte-level str model and Kani exhausts memory on 3-byte inputs (measured, DESIGN.md Appendix B); no contract within reach expresses parse(write(d)) == d'},
